@@ -66,9 +66,18 @@ def run_verus_unit(repo, unit_name, variant, workdir, log, only_fns=None):
                 u2 = _types.SimpleNamespace(**{k: getattr(unit, k) for k in dir(unit) if not k.startswith("__")})
                 items = [dict(it) for it in unit.ITEMS]
                 for h in helpers:
-                    for it in items:
+                    for k, it in enumerate(items):
                         if it.get("kind") == "fn" and (it.get("label") or it.get("name")) == h["after"]:
-                            it["inline_helpers"] = list(it.get("inline_helpers", [])) + [h["name"]]
+                            if h.get("const"):
+                                srcf = open(os.path.join(repo, it["file"])).read()
+                                mm = _re0.search(r"^[ \t]*(?:pub(?:\([a-z]+\))? )?const %s\s*:\s*([^=;]+)=\s*([^;]+);" % h["name"], srcf, _re0.M)
+                                if not mm:
+                                    raise Undecided("R29: const %s not found in %s" % (h["name"], it["file"]))
+                                items.insert(k, dict(kind="raw", label="R29 const " + h["name"],
+                                                     text="pub const %s: %s = %s;\n" % (h["name"], mm.group(1).strip(), mm.group(2).strip())))
+                            else:
+                                it["inline_helpers"] = list(it.get("inline_helpers", [])) + [h["name"]]
+                            break
                 u2.ITEMS = items
             bu = V.build_unit(repo, u2, variant)
         except Undecided as e:
@@ -88,6 +97,16 @@ def run_verus_unit(repo, unit_name, variant, workdir, log, only_fns=None):
                 if owner and not any(h["name"] == m.group(1) for h in helpers):
                     missing = {"name": m.group(1), "after": owner}
                     break
+        if not missing:
+            # R29: a module-level constant the function refers to but the unit does not declare is copied from the same file
+            for d in probe["diags"]:
+                m = _re0.match(r"cannot find value `([A-Z][A-Z0-9_]*)` in this scope", d["msg"])
+                if d["level"] == "error" and m and d["line"] and not any(h["name"] == m.group(1) for h in helpers):
+                    fnmap0, _lm0 = _fn_ranges(bu)
+                    owner = fnmap0.get(d["line"])
+                    if owner:
+                        missing = {"name": m.group(1), "after": owner, "const": True}
+                        break
         if not missing:
             break
         helpers.append(missing)
